@@ -2,6 +2,7 @@ package rules
 
 import (
 	"fmt"
+	"go/token"
 	"sort"
 	"strings"
 
@@ -171,6 +172,36 @@ func inventedErrorAccepted(b *ssa.BasicBlock) string {
 	if ex, ok := f.Cond.(*ssa.Extract); ok && ex.Index == 1 && !f.Truth {
 		if _, isTA := ex.Tuple.(*ssa.TypeAssert); isTA {
 			return "in the default arm of a switch over dynamic types (an internal 'cannot happen')"
+		}
+	}
+	// the default arm of a switch over a classification (`switch form { case linkStored: … case linkLoaded: … default: }`):
+	// at least two failed comparisons of one and the same value with constants, the innermost among them
+	isNeConst := func(g ir.Fact) (ssa.Value, bool) {
+		bin, ok := g.Cond.(*ssa.BinOp)
+		if !ok {
+			return nil, false
+		}
+		if _, isK := bin.Y.(*ssa.Const); !isK {
+			return nil, false
+		}
+		if (bin.Op == token.EQL && !g.Truth) || (bin.Op == token.NEQ && g.Truth) {
+			return bin.X, true
+		}
+		return nil, false
+	}
+	if x, ok := isNeConst(f); ok {
+		if _, isCall := ir.Origin(x).(*ssa.Extract); isCall || x != nil {
+			n := 0
+			for _, g := range facts {
+				if y, ok := isNeConst(g); ok && y == x {
+					n++
+				}
+			}
+			if ex, isEx := ir.Origin(x).(*ssa.Extract); isEx && n >= 2 {
+				if call, isCall := ex.Tuple.(*ssa.Call); isCall && ir.Callee(call.Call) != nil && ir.Callee(call.Call).Blocks != nil {
+					return "in the default arm of a switch over a private classification of the link (an internal 'cannot happen')"
+				}
+			}
 		}
 	}
 	return ""
